@@ -73,6 +73,18 @@ func c10classes() []c10class {
 			c.Params = append(c.Params, Param{"t", "%first name%"})
 		}), nil, false},
 		{"token-error-unexpected-in-argument", mod(func(c *Cfg) { c.Services[0].Args = []any{"%p%", "x%1st%y"} }), nil, false},
+		{"token-error-field-with-arguments", mod(func(c *Cfg) {
+			c.Services[0].Args = []any{"%p%", 1}
+			c.Services[0].Fields = []KV{{"Port", "%p"}}
+		}), nil, false},
+		{"token-error-call-with-field", mod(func(c *Cfg) {
+			c.Services[0].Fields = []KV{{"Port", "%p%"}}
+			c.Services[0].Calls = []Call{{Method: "Set", Args: []any{"50%"}}, {Method: "Set", Args: []any{"%p%"}}}
+		}), nil, false},
+		{"token-error-decorator-with-services", mod(func(c *Cfg) {
+			c.Services[0].Tags = []Tag{{Name: "tg"}}
+			c.Decorators = []Decorator{{Tag: "tg", Decorator: "pk.Dec1", Args: []any{"%p%", "%nofn()%"}}}
+		}), nil, false},
 		{"formatter-error", mod(func(c *Cfg) { c.Meta.ContainerType = P("func") }), nil, false},
 		{"missing-param", mod(func(c *Cfg) { c.Services[0].Args = []any{"%nope%", "%nope2%"} }), nil, false},
 		{"missing-service", mod(func(c *Cfg) { c.Services[0].Args = []any{"@nope"} }), nil, false},
@@ -238,7 +250,7 @@ func init() {
 	Register(&Check{
 		ID:    "C10",
 		Level: "fault_enumeration",
-		Rule: "34 configuration / environment classes (valid, two files, file names with a comma / spaces / parentheses, YAML syntax error, YAML type errors whose message spans several lines (one file, nested, second file), shape error, grammar error(s), token errors (several; a single unexpected token in a parameter / in an argument), compile errors (must-getter without getter under default_must_getter, malformed @ / !value arguments), formatter error, missing parameter / service, cycle, scope, mixed output errors, version mismatch, file matched twice (the identical pattern repeated, glob repeated, three times, file + glob, ./ prefix, dirty path, glob + dirty path), missing input, only missing input, empty glob, invalid glob, input is a directory) x all 16 flag combinations (quiet, stub, ignore-missing-params, ignore-missing-services) x 5 output pre-states (absent, existing file with old mtime and 0600, directory, missing parent, same path as an input) " +
+		Rule: "37 configuration / environment classes (valid, two files, file names with a comma / spaces / parentheses, YAML syntax error, YAML type errors whose message spans several lines (one file, nested, second file), shape error, grammar error(s), token errors (several; a single unexpected token in a parameter / in an argument), compile errors (must-getter without getter under default_must_getter, malformed @ / !value arguments), formatter error, missing parameter / service, cycle, scope, mixed output errors, version mismatch, file matched twice (the identical pattern repeated, glob repeated, three times, file + glob, ./ prefix, dirty path, glob + dirty path), missing input, only missing input, empty glob, invalid glob, input is a directory) x all 16 flag combinations (quiet, stub, ignore-missing-params, ignore-missing-services) x 5 output pre-states (absent, existing file with old mtime and 0600, directory, missing parent, same path as an input) " +
 			"x injected file-system answers at every os.ReadFile / os.WriteFile / filepath.Glob call of internal/cmd/runner (EACCES, EIO, ErrBadPattern): all executions with <= 1 injected answer (quick) / <= 2 (thorough); plus the real binary's exit status for one representative of every class. non-trivial = a failure class, a non-absent pre-state or an injected fault; distinct = distinct (class, flags, pre-state, fault plan)",
 		Assumptions: []string{
 			"file-system answers are injected with go build -overlay (os.ReadFile, os.WriteFile, filepath.Glob in internal/cmd/runner rewritten to a shim); a write that fails after truncation is outside the statement's fault list and not injected",
